@@ -255,6 +255,11 @@ pub struct SerdeCfg {
     /// token transport: decode through `Deserialize::deserialize_in_place` into a target that already holds entries
     #[serde(default)]
     pub in_place: bool,
+    /// 0: off; otherwise (and `bincode` false) the real serde_json codec is the transport: 1 compact text through
+    /// `from_slice`, 2 spaced text through `from_reader`, 3 through `serde_json::Value` (keys in lexicographic
+    /// order, exact size hint); `permute`, `dup_at`, `truncate`, `flip_bit`, `in_place` act on the text
+    #[serde(default)]
+    pub json: u8,
 }
 
 #[derive(Clone, Debug, Serialize, Deserialize, PartialEq, Eq)]
